@@ -103,12 +103,23 @@ func (w *World) verifyFunction(c *Contract) (res *FuncResult) {
 	// cover: some return is reachable
 	vc.obls = append(vc.obls, &Obligation{Name: fn.String() + "#cover.return", Kind: "cover", Fn: fn.String(), Props: c.Raw.Props,
 		Prefix: len(vc.script), Cond: out.cond, Goal: "false", Expect: "sat"})
-	post := vc.contractEnv(c, args, results, out, vc.entry)
+	_ = results
+	// postconditions: one obligation per clause, one sub-goal per return site
 	for _, cl := range c.Clauses {
-		switch cl.Raw.Kind {
-		case "ensures":
-			vc.oblige(out, "post", cl.Raw.Label, vc.specBool(post, cl.Expr), fn.Pos(), vc.clauseProps(c, cl))
+		if cl.Raw.Kind != "ensures" {
+			continue
 		}
+		var subs []*SubGoal
+		allTrue := true
+		for _, rs := range fr.retVals {
+			post := vc.contractEnv(c, args, rs.vals, rs.st, vc.entry)
+			g := vc.specBool(post, cl.Expr)
+			if g != "true" {
+				allTrue = false
+			}
+			subs = append(subs, &SubGoal{Prefix: len(vc.script), Cond: rs.st.cond, Goal: g})
+		}
+		vc.obligeSubs("post", cl.Raw.Label, subs, allTrue, fn.Pos(), vc.clauseProps(c, cl))
 	}
 	vc.frameObligations(c, args, out)
 	return res
@@ -305,4 +316,120 @@ func (w *World) verifyLemma(l *Lemma) (res *FuncResult) {
 		Prefix: len(vc.script), Cond: "true", Goal: "false", Expect: "sat"})
 	vc.oblige(st, "lemma", "", vc.specBool(env, l.Concl), l.Decl.Pos(), l.Raw.Props)
 	return res
+}
+
+// verifySubtype: the contract of a concrete method implies the contract stated
+// for the interface method it implements (behavioural subtyping).
+func (w *World) verifySubtype(ic, cc *Contract) (res *FuncResult) {
+	vc := newVC(w, nil, nil)
+	vc.label = "subtype:" + shortFn(cc.Fn) + "<:" + ic.IfaceName
+	vc.label = strings.ReplaceAll(vc.label, modPath+"/", "")
+	vc.curProps = ic.Raw.Props
+	vc.safetyProps = ic.Raw.Props
+	res = &FuncResult{Fn: vc.label}
+	defer func() {
+		if r := recover(); r != nil {
+			switch e := r.(type) {
+			case outsideSubset:
+				res.Outside = e.msg
+			case specErr:
+				res.Outside = "spec: " + e.msg
+			default:
+				panic(r)
+			}
+		}
+		res.Obls = vc.obls
+		res.Prelude = vc.prelude
+		res.Script = vc.script
+	}()
+	st := &State{heap: newHeap(), cond: "true"}
+	vc.declare("alloc0", sBV64)
+	st.alloc = "alloc0"
+	vc.assume("true", and(app("bvugt", "alloc0", bvLit(64, 1<<20)), app("bvult", "alloc0", bvLit(64, 1<<45))))
+	vc.entry = st.clone()
+	// concrete arguments
+	var cargs []Val
+	for i := 0; i < cc.NIn; i++ {
+		t := cc.Params[i].Type()
+		v := Val{T: t}
+		for k, lf := range layoutOf(t).Leaves {
+			n := smtName(fmt.Sprintf("p!%s!%d", cc.Params[i].Name(), k))
+			vc.declare(n, lf.Sort)
+			v.L = append(v.L, n)
+		}
+		vc.assumeWellFormed(st, v)
+		cargs = append(cargs, v)
+	}
+	if _, ok := cargs[0].T.Underlying().(*types.Pointer); ok {
+		vc.assume("true", not(eq(cargs[0].L[0], bvLit(64, 0))))
+	}
+	iargs := append([]Val{vc.makeInterface(st, cargs[0], nil, ic.Params[0].Type())}, cargs[1:]...)
+	pre := st.clone()
+	ienv := vc.contractEnv(ic, iargs, nil, st, nil)
+	for _, cl := range ic.Clauses {
+		if cl.Raw.Kind == "requires" {
+			vc.assume("true", vc.specBool(ienv, cl.Expr))
+		}
+	}
+	cenv := vc.contractEnv(cc, cargs, nil, st, nil)
+	for _, cl := range cc.Clauses {
+		if cl.Raw.Kind == "requires" {
+			vc.oblige(st, "subtype.pre", cl.Raw.Label, vc.specBool(cenv, cl.Expr), cc.Decl.Pos(), nil)
+		}
+	}
+	ctargets := vc.assignTargets(cc, cenv, -1)
+	itargets := vc.assignTargets(ic, ienv, -1)
+	for _, ct := range ctargets {
+		var alts []string
+		for _, it := range itargets {
+			if it.name != ct.name {
+				continue
+			}
+			if it.whole || it.key == "" {
+				alts = append(alts, "true")
+			} else if !ct.whole && ct.key != "" {
+				alts = append(alts, eq(it.key, ct.key))
+			}
+		}
+		vc.oblige(st, "subtype.frame", ct.name, or(alts...), cc.Decl.Pos(), nil)
+	}
+	vc.havocTargets(st, ctargets)
+	var results []Val
+	sig := cc.Fn.Signature
+	for i := 0; i < sig.Results().Len(); i++ {
+		results = append(results, freshVal(vc, st, sig.Results().At(i).Type(), "r"))
+	}
+	cpost := vc.contractEnv(cc, cargs, results, st, pre)
+	for _, cl := range cc.Clauses {
+		if cl.Raw.Kind == "ensures" {
+			vc.assume("true", vc.specBool(cpost, cl.Expr))
+		}
+	}
+	ipost := vc.contractEnv(ic, iargs, results, st, pre)
+	for _, cl := range ic.Clauses {
+		if cl.Raw.Kind == "ensures" {
+			vc.oblige(st, "subtype.post", cl.Raw.Label, vc.specBool(ipost, cl.Expr), cc.Decl.Pos(), vc.clauseProps(ic, cl))
+		}
+	}
+	return res
+}
+
+// subtypePairs lists (interface contract, implementing method contract) pairs.
+func (w *World) subtypePairs() [][2]*Contract {
+	var out [][2]*Contract
+	for _, ic := range w.ContractList {
+		if ic.Fn != nil {
+			continue
+		}
+		it := ic.Params[0].Type().Underlying().(*types.Interface)
+		for _, cc := range w.ContractList {
+			if cc.Fn == nil || cc.Fn.Signature.Recv() == nil || cc.Raw.Name != ic.Raw.Name {
+				continue
+			}
+			if types.Implements(cc.Fn.Signature.Recv().Type(), it) {
+				out = append(out, [2]*Contract{ic, cc})
+			}
+		}
+	}
+	return out
 }
